@@ -138,6 +138,9 @@ class PbnWriter(Writer):
                                 taken_tricks))
         # TODO: Implement optional fields.
 
+        # an empty line ends the game (PBN export format)
+        self.writer.write('\n')
+
 
 class Scoring(Enum):
     """PBN Scoring systems.
